@@ -12,6 +12,7 @@ import (
 	"go.etcd.io/raft/v3/quorum"
 	pb "go.etcd.io/raft/v3/raftpb"
 	"go.etcd.io/raft/v3/tracker"
+	"google.golang.org/protobuf/proto"
 
 	"verif/model"
 )
@@ -308,6 +309,7 @@ func cmdConfChange(args []string) int {
 	for wi := 0; wi < walks && c.viol == 0; wi++ {
 		t, mc := initialTracker(uint64(1 + r.Intn(7)))
 		hist := fmt.Sprintf("walk %d", wi)
+		var held, heldCopy *pb.ConfState
 		for s := 0; s < length; s++ {
 			op := ccOp{kind: r.Intn(4)}
 			if r.Intn(3) == 0 && mc.Joint() {
@@ -324,8 +326,15 @@ func cmdConfChange(args []string) int {
 			}
 			nt, nmc := c.step(t, mc, op, hist)
 			if nt != nil {
+				// a long-lived tracker, as raft keeps one: a ConfState handed out
+				// earlier must not change when the configuration is switched
 				t, mc = *nt, nmc
 				walkStates[mc.String()] = true
+				if held != nil && !proto.Equal(held, heldCopy) {
+					c.report("ConfState handed out for %s reads %s after the tracker switched to %s (%s)", heldCopy, held, mc, hist)
+				}
+				held = t.ConfState()
+				heldCopy = proto.Clone(held).(*pb.ConfState)
 			}
 		}
 	}
